@@ -117,7 +117,7 @@ func runC05(c *core.Ctx) {
 	}
 
 	// part 1
-	inj := &c05Injector{c: c, d: d, led: led, tb: tb, role: map[string]string{"A": "controlling", "B": "controlled"}, liteB: k.liteB, ci: k.checkInterval}
+	inj := &c05Injector{c: c, d: d, led: led, tb: tb, role: map[string]string{"A": "controlling", "B": "controlled"}, liteB: k.liteB, ci: k.checkInterval, tick: c05TickBound(k)}
 	sess := &c01Session{c: c, d: d, k: k, noOracles: true}
 	sess.hook = func(string) {
 		if c.Failed() {
@@ -157,6 +157,7 @@ type c05Injector struct {
 	liteB        bool
 	liteSwitched bool
 	ci           time.Duration
+	tick         time.Duration // upper bound of the interval between two check ticks of a connected agent
 }
 
 func (in *c05Injector) inject() {
@@ -184,8 +185,10 @@ func (in *c05Injector) inject() {
 		// let a check tick pass with no delivery, as the wire-reading loop below does for a full agent: what
 		// earlier deliveries changed (liveness, Disconnected -> Connected) is then visible before the snapshot
 		// and is not attributed to the conflicting request
-		d.S.Advance(in.ci)
-		d.S.Advance(in.ci)
+		// (a connected agent ticks every min(keepalive, disconnected, failed timeout), not every check interval)
+		for el := time.Duration(0); el < in.tick+in.ci; el += in.ci {
+			d.S.Advance(in.ci)
+		}
 	} else {
 		n00 := in.led.Side[target.Name].SentReqs
 		for i := 0; i < 400 && in.led.Side[target.Name].SentReqs == n00; i++ {
@@ -315,13 +318,24 @@ func (in *c05Injector) inject() {
 	if unknownSrc {
 		// only the selection and the callbacks are compared: a learned prflx candidate and the check round it
 		// starts legitimately add pairs and bump request counters
+		// The new candidate also makes the agent run its periodic task at once, at a later instant than its
+		// last timer tick: transitions that only time and silence explain (Connected -> Disconnected -> Failed,
+		// Disconnected -> Connected after earlier traffic) may surface right here and are not attributed to
+		// the request. A selection, a selected-pair callback or Checking -> Connected would be.
 		diffs = nil
-		if pre.Selected != post.Selected || pre.NStates != post.NStates || pre.NPairsEv != post.NPairsEv {
+		becameConnected := false
+		seq := target.StateSeq()
+		for i := pre.NStates; i < len(seq) && i > 0; i++ {
+			if seq[i].State == ice.ConnectionStateConnected && seq[i-1].State != ice.ConnectionStateDisconnected {
+				becameConnected = true
+			}
+		}
+		if pre.Selected != post.Selected || becameConnected || pre.NPairsEv != post.NPairsEv {
 			diffs = []string{fmt.Sprintf("selected %q -> %q, state callbacks %d -> %d, pair callbacks %d -> %d", pre.Selected, post.Selected, pre.NStates, post.NStates, pre.NPairsEv, post.NPairsEv)}
 		}
 	}
 	if len(diffs) > 0 && !c.Failed() {
-		c.Failf("C05/conflict-changed-state", "conflicting request (role=%s keep=%v) changed observable state: %v", role, keep, diffs)
+		c.Failf("C05/conflict-changed-state", "conflicting request (role=%s keep=%v) changed observable state: %v; states of %s: %v", role, keep, diffs, target.Name, target.StateSeq())
 	}
 	if c.Failed() {
 		return
@@ -348,4 +362,20 @@ func describeMsgs(ms []rig.Msg) []string {
 		out = append(out, fmt.Sprintf("%s/%s err=%d", m.Method, m.Class, m.ErrorCode))
 	}
 	return out
+}
+
+// c05TickBound: a connected agent runs its periodic task every min of the non-zero values among keepalive
+// interval, disconnected timeout and failed timeout (public configuration), at most every 2 s by default.
+func c05TickBound(k c01Knobs) time.Duration {
+	b := 2 * time.Second
+	for _, d := range []time.Duration{k.keepalive, k.disc, k.failed, k.checkInterval} {
+		if d > 0 && d < b {
+			b = d
+		}
+	}
+	if k.keepalive > b {
+		// the bound above is what the agent uses; be generous and cover the keepalive period too
+		b = k.keepalive
+	}
+	return b
 }
